@@ -329,6 +329,47 @@ def r10_framework_items_for_every_pipeline(ctx):
     ctx.floor('C01.R10', 'pipeline-bearing fields used by path_router', len(used), 2)
 
 
+def r11_unelide_early_exits(ctx):
+    ctx.rule('C01.R11', 'P12 decision audit: Callable::unelide_output_lifetimes is what ties the output of a constructor to the input it borrows from '
+             '(the move-while-borrowed pass follows it); it hands the callable back UNCHANGED only for struct / enum-variant initialisers, callables '
+             'without an output, and outputs without elided lifetimes. The branches one of whose outcomes reaches a return without passing '
+             '`set_implicit_lifetimes` are fed by those reviewed predicates only — a further shortcut (say, "no input is a reference") leaves a by-value '
+             'input that carries an elided lifetime (`View<\'_>`) untied, and the generated code moves a value that is still borrowed.')
+    from .compiler_common import slice_calls_with_closures
+    CAL = 'rustdoc_ir::callable::Callable::'
+    b = ctx.need('C01.R11', 'Callable::unelide_output_lifetimes', ctx.fb.body('rustdoc_ir', CAL + 'unelide_output_lifetimes'))
+    if b is None:
+        return
+    REVIEWED = {CAL + 'output', 'rustdoc_ir::type_::{impl rustdoc_ir::Type}::has_implicit_lifetime_parameters', 'rustdoc_ir::Type::has_implicit_lifetime_parameters'}
+    sets = [bb for bb, t in b.calls() if (callee(t) or '').endswith('::set_implicit_lifetimes')]
+    rets = set(b.return_blocks())
+    if not ctx.need('C01.R11', 'set_implicit_lifetimes in unelide_output_lifetimes', sets):
+        return
+    defs = Defs(b)
+    found, n = {}, 0
+    for sb in sorted(b.live_blocks()):
+        w = b.term(sb)
+        if not w or w['k'] != 'switch':
+            continue
+        succs = list(dict.fromkeys([x[1] for x in w['ts']] + [w['else']]))
+        early = [bool(b.reachable([x], avoid=sets) & rets) for x in succs]
+        # the loop over the inputs sits between the early exits and the rewrite: only branches from which the rewrite of the OUTPUT can still be
+        # reached on another edge decide "unchanged or rewritten"
+        if not (any(early) and not all(early)):
+            continue
+        n += 1
+        l = w['src']['l'] if 'src' in w else (op_place(w['d'])['l'] if op_place(w.get('d')) else None)
+        if l is None:
+            continue
+        sl, _ = backward_slice(b, l, defs)
+        for c in slice_calls_with_closures(b, sl):
+            if c.startswith('rustdoc_ir::') or c.split('::')[-1] in ('any', 'all', 'is_empty', 'contains', 'len', 'eq', 'ne'):
+                found.setdefault(c, b.loc(sb))
+    new_ = sorted(set(found) - REVIEWED)
+    ctx.ob('C01.R11', 'unchanged-only-for-reviewed-reasons', n > 0 and not new_, found[new_[0]] if new_ else b.loc(),
+           '%d branch(es) decide whether the callable is returned unchanged; predicates feeding them: %s; not reviewed: %s' % (n, sorted(found), new_ or 'none'))
+
+
 def check(ctx):
     r1_typestate(ctx)
     r2_pipeline(ctx)
@@ -338,3 +379,4 @@ def check(ctx):
     r8_rendered_crate_names(ctx)
     r9_total_type_walkers(ctx)
     r10_framework_items_for_every_pipeline(ctx)
+    r11_unelide_early_exits(ctx)
